@@ -32,7 +32,15 @@ type ppCtx struct {
 	s, u int // output scale, input units per 1.0
 }
 
-func (c *ppCtx) val(sc int) float64 { return float64(sc) / float64(c.u) }
+func (c *ppCtx) val(sc int) float64 {
+	switch sc {
+	case 1000001:
+		return math.Inf(1)
+	case -1000001:
+		return math.Inf(-1)
+	}
+	return float64(sc) / float64(c.u)
+}
 
 func (c *ppCtx) agg(in [][2]int, kind comet.ScoreAggregationKind) {
 	mk := func(l [][2]int) ([]comet.VectorResult, []comet.TextResult) {
@@ -284,6 +292,12 @@ func drvPostProc(args []string) error {
 		}
 		switch c.rng.Intn(5) {
 		case 0:
+			if c.rng.Intn(5) == 0 && l > 0 { // infinite scores of one sign
+				tok := []int{1000001, -1000001}[c.rng.Intn(2)]
+				for k := 0; k < 1+l/20; k++ {
+					in[c.rng.Intn(l)][1] = tok
+				}
+			}
 			c.agg(in, aggKinds[c.rng.Intn(3)])
 		case 1:
 			c.merge(in)
